@@ -72,3 +72,83 @@ func monC07(h *Hist, o *TxnObs) {
 	h.Obs.ResetTxn()
 	h.Obs.TakeMismatches()
 }
+
+// forkScenarioC07 is a directed fork schedule: a cacheable value K is created in block X, left alone in A, changed in B (child of A),
+// read by a sibling C (child of A), then read again by D (child of B). Every read is judged by the shadow-read oracle.
+func forkScenarioC07(h *Hist, mons []Monitor) {
+	find := func(name string) *OpDef {
+		for _, op := range catalogue() {
+			if op.Name == name {
+				o := op
+				return &o
+			}
+		}
+		return nil
+	}
+	add, stake := find("zcn.add-authorizer"), find("zcn.mint")
+	if add == nil || stake == nil {
+		return
+	}
+	r := h.R.Fork("c07-fork")
+	save := h.Vars["hostile"]
+	h.Vars["hostile"] = 0.0
+	defer func() { h.Vars["hostile"] = save }()
+	submitUntil := func(op *OpDef, ms []Monitor, keepAfter bool) bool {
+		for i := 0; i < 30; i++ {
+			c := op.Build(h, r)
+			if c == nil {
+				continue
+			}
+			if !keepAfter {
+				c.After = nil
+			}
+			if o := h.Submit(c, ms); o.Outcome == "success" {
+				return true
+			}
+		}
+		return false
+	}
+	// X: authorizers, and a first mint creating the minted-nonce partitions (cacheable value K)
+	for i := 0; i < 3; i++ {
+		if !submitUntil(add, mons, true) {
+			return
+		}
+	}
+	if !submitUntil(stake, mons, true) {
+		return
+	}
+	h.EndBlock()
+	// A: unrelated
+	h.Submit(&Call{Name: "data", Spec: dataSpec(h)}, mons)
+	h.EndBlock()
+	// B: change K
+	if !submitUntil(stake, mons, true) {
+		return
+	}
+	h.EndBlock()
+	// C: sibling of B reads (and changes) K from A's point of view
+	var stateless []Monitor
+	for _, m := range mons {
+		switch m.Prop {
+		case "C01", "C05", "C07":
+			stateless = append(stateless, m)
+		}
+	}
+	saveHead, saveCur, saveRef, saveRound := h.Head, h.Cur, h.RefNonce, h.Round
+	parent := h.Head.PrevBlock
+	cur, err := snapTake(parent)
+	if err != nil {
+		return
+	}
+	h.Head, h.Cur, h.Round = parent, cur, parent.Round
+	h.RefNonce = refNonces(h, cur)
+	submitUntil(stake, stateless, false)
+	h.EndBlock()
+	h.Head, h.Cur, h.RefNonce, h.Round = saveHead, saveCur, saveRef, saveRound
+	// D: child of B reads K again
+	submitUntil(stake, mons, true)
+	h.EndBlock()
+	if r := h.Runs["C07"]; r != nil {
+		r.Count("directed_fork_scenarios", 1)
+	}
+}
